@@ -530,4 +530,6 @@ def run(prog: Program, tier: str) -> List[RuleResult]:
 
     return [guard(lambda: strong_ref(prog)), guard(lambda: weak_wrapper(prog)), guard(lambda: c14.sg_coherence(prog)), guard(lambda: c14.idkey(prog)), guard(lambda: c14.sg_purge_directions(prog)), guard(lambda: c13.sg_sweep(prog)), guard(lambda: _stream_lazy(prog)),
             # an edge whose payload was overwritten leaves its pair in the relation index for good
-            guard(lambda: c14.rel_edges(prog)), guard(lambda: sg_no_raw(prog)), guard(lambda: _pd_field(prog)), guard(lambda: wrapper_eq(prog)), guard(lambda: exc_kept(prog))]
+            guard(lambda: c14.rel_edges(prog)), guard(lambda: sg_no_raw(prog)), guard(lambda: _pd_field(prog)), guard(lambda: wrapper_eq(prog)), guard(lambda: exc_kept(prog)),
+            # between an instance's death and the next sweep its edges are still stored: what reads them leaves out the ones with a dead endpoint
+            guard(lambda: c14.rel_live(prog))]
